@@ -668,14 +668,10 @@ fn parse_snap(pid: i32, text: &str) -> Option<Snap> {
 }
 
 fn table_str(s: &Snap) -> String {
-    let mut ids: BTreeMap<u64, usize> = BTreeMap::new();
+    // open file descriptions are shown by their creation serial number
     s.fds
         .iter()
-        .map(|(fd, (p, c, ..))| {
-            let n = ids.len();
-            let id = *ids.entry(*p).or_insert(n);
-            format!("{fd}{}->#{id}", if *c { "c" } else { "" })
-        })
+        .map(|(fd, (p, c, ..))| format!("{fd}{}->ofd{p}", if *c { "c" } else { "" }))
         .collect::<Vec<_>>()
         .join(" ")
 }
